@@ -49,13 +49,16 @@ def call_validate(shape, spec, limit, int_form=False, limit_form="int"):
     import abtem
     rec = {"f": "validate", "shape": list(shape), "spec": [list(c) for c in spec], "limit": limit,
            "raised": False, "res": [], "ranges": [], "iter": True, "int_form": int_form, "limit_form": limit_form}
+    # a byte budget need not be a multiple of the item size: 8 * limit + r bytes (r < 8) still hold exactly `limit` complex64 elements
+    nbytes = 8 * int(limit) + (int(limit) + 3 * sum(int(x) for x in shape)) % 8
+    rec["bytes"] = nbytes
     try:
         if int_form:
             res = C.validate_chunks(tuple(shape), int(limit))
         elif limit_form == "bytes":
-            res = C.validate_chunks(tuple(shape), spec_to_py(spec), max_elements=f"{8 * int(limit)} B", dtype=np.complex64)
+            res = C.validate_chunks(tuple(shape), spec_to_py(spec), max_elements=f"{nbytes} B", dtype=np.complex64)
         elif limit_form == "auto_config":
-            with abtem.config.set({"dask.chunk-size": f"{8 * int(limit)} B"}):
+            with abtem.config.set({"dask.chunk-size": f"{nbytes} B"}):
                 res = C.validate_chunks(tuple(shape), spec_to_py(spec), max_elements="auto", dtype=np.complex64)
         else:
             res = C.validate_chunks(tuple(shape), spec_to_py(spec), max_elements=int(limit))
